@@ -132,6 +132,8 @@ pub struct TcpState {
     /// guard against a caller that loops on the socket inside one poll: after `max_calls` socket
     /// calls every further call fails with an error and `overrun` names the first offender
     pub max_calls: usize,
+    /// same guard on the number of bytes the write side accepts
+    pub max_written: usize,
     pub calls: usize,
     pub overrun: Option<&'static str>,
 }
@@ -162,6 +164,7 @@ impl TcpState {
             deferred: Vec::new(),
             parked_forever: false,
             max_calls: usize::MAX,
+            max_written: usize::MAX,
             calls: 0,
             overrun: None,
         }
@@ -210,6 +213,12 @@ impl TcpState {
             return Poll::Ready(Ok(0));
         }
         let have = self.written.len();
+        if have >= self.max_written {
+            if self.overrun.is_none() {
+                self.overrun = Some("write-bytes");
+            }
+            return Poll::Ready(Err(io::Error::other("simnet: more bytes written than were ever queued")));
+        }
         while self.wlimit <= have {
             match self.wsteps.pop_front() {
                 Some(Step::Upto(b)) => self.wlimit = self.wlimit.max(b),
